@@ -251,11 +251,13 @@ def edits(spec, seed=0, max_depth=3, with_float=False, with_main=False):
     top_ids = [v["id"] for v in spec["variants"]]
     top_uids = [v["uid"] for v in spec["variants"]]
     if len(nodes) < 7:
-        for vid in ("A", "B", "Workstation"):
-            if vid not in top_ids:
+        offered = 0
+        for vid in ("A", "Workstation", "B"):
+            if vid not in top_ids and offered < (2 if len(top_ids) < 3 else 1):
                 out.append(["addvar", None, vspec(vid, "variant", paths={"packages": "%s/Packages" % vid, "repository": vid})])
-                out.append(["addvar", None, vspec(vid, "variant")])
-                break
+                if not offered:
+                    out.append(["addvar", None, vspec(vid, "variant")])
+                offered += 1
         if "Server-optional" not in [v["uid"] for v, _, _ in nodes] and "optional" not in top_ids:
             out.append(["addvar", None, vspec("optional", "optional", uid="Server-optional",
                                               paths={"packages": "opt/Packages", "repository": "opt"})])
